@@ -1007,7 +1007,20 @@ func runOverlap(c *vlib.Ctx, mode, path string, mut Op) {
 	if info == nil {
 		panic("scenario token does not verify")
 	}
-	req := &auth.PermissionCheckRequest{TokenInfo: info, Database: "prod_eu", Measurement: "", Permission: "write"}
+	// the batch path asks four keys the scenario grants through the team's role, all
+	// cache misses: the check is parked after the FIRST of them was computed, so the
+	// other three are computed (and possibly cached) after the mutation returned
+	keys := [][2]string{{"prod_eu", "write"}}
+	if path == "batch" {
+		keys = append(keys, [2]string{"prod", "read"}, [2]string{"prod", "write"}, [2]string{"prod_eu", "read"})
+	}
+	mkReqs := func(ti *auth.TokenInfo) []*auth.PermissionCheckRequest {
+		var rs []*auth.PermissionCheckRequest
+		for _, k := range keys {
+			rs = append(rs, &auth.PermissionCheckRequest{TokenInfo: ti, Database: k[0], Measurement: "", Permission: k[1]})
+		}
+		return rs
+	}
 	point := "rbac.check.computed"
 	if path == "batch" {
 		point = "rbac.batch.computed"
@@ -1023,9 +1036,9 @@ func runOverlap(c *vlib.Ctx, mode, path string, mut Op) {
 	got := make(chan bool, 1)
 	go func() {
 		if path == "batch" {
-			got <- e.rm.CheckPermissionsBatch([]*auth.PermissionCheckRequest{req})[0].Allowed
+			got <- e.rm.CheckPermissionsBatch(mkReqs(info))[0].Allowed
 		} else {
-			got <- e.rm.CheckPermission(req).Allowed
+			got <- e.rm.CheckPermission(mkReqs(info)[0]).Allowed
 		}
 	}()
 	select {
@@ -1040,32 +1053,37 @@ func runOverlap(c *vlib.Ctx, mode, path string, mut Op) {
 	before := <-got
 	verifhook.Clear(point)
 
-	// a check that STARTS now, after the mutation returned
+	// checks that START now, after the mutation returned: every key, single and batched
 	ninfo := e.am.VerifyToken(h.toks[0].value)
-	var after bool
-	if ninfo != nil {
-		nreq := &auth.PermissionCheckRequest{TokenInfo: ninfo, Database: "prod_eu", Measurement: "", Permission: "write"}
-		if path == "batch" {
-			after = e.rm.CheckPermissionsBatch([]*auth.PermissionCheckRequest{nreq})[0].Allowed
-		} else {
-			after = e.rm.CheckPermission(nreq).Allowed
-		}
-	}
 	fresh := e.freshRBAC()
 	defer fresh.Close()
-	want := false
-	if row, _ := e.am.GetTokenByID(h.toks[0].id); row != nil && row.Enabled && ninfo != nil {
-		want = fresh.CheckPermission(&auth.PermissionCheckRequest{TokenInfo: row, Database: "prod_eu", Measurement: "", Permission: "write"}).Allowed
-	}
+	row, _ := e.am.GetTokenByID(h.toks[0].id)
 	c.Eval()
 	c.Count("overlap_schedules", 1)
-	if before && !want {
-		c.Nontrivial("overlap|" + mode + "|" + path + "|" + mut.String())
-	}
-	if after != want {
-		c.Violation(fmt.Sprintf("permission check overlapping a mutation leaves its pre-mutation decision cached (%s path)", path),
-			c20Overlap{Mode: mode, Path: path, Mutation: mut, Parked: point, Before: before, After: after, Expected: want,
-				Note: "the parked check started before the mutation; only the check started after the mutation returned is constrained"})
+	for ki, k := range keys {
+		var afterSingle, afterBatch bool
+		if ninfo != nil {
+			rs := mkReqs(ninfo)
+			afterSingle = e.rm.CheckPermission(rs[ki]).Allowed
+			afterBatch = e.rm.CheckPermissionsBatch(rs)[ki].Allowed
+		}
+		want := false
+		if row != nil && row.Enabled && ninfo != nil {
+			want = fresh.CheckPermission(&auth.PermissionCheckRequest{TokenInfo: row, Database: k[0], Measurement: "", Permission: k[1]}).Allowed
+		}
+		if ki == 0 && before && !want {
+			c.Nontrivial("overlap|" + mode + "|" + path + "|" + mut.String())
+		}
+		c.Count("overlap_keys_checked_after_mutation", 1)
+		if afterSingle != want || afterBatch != want {
+			sig := fmt.Sprintf("permission check overlapping a mutation leaves its pre-mutation decision cached (%s path)", path)
+			if ki > 0 {
+				sig = "batch overlapping a mutation: a request of the batch that was computed AFTER the mutation returned is cached with the pre-mutation decision"
+			}
+			c.Violation(sig, c20Overlap{Mode: mode, Path: path, Mutation: mut, Parked: point, Before: before, After: afterSingle || afterBatch, Expected: want,
+				Note: fmt.Sprintf("key %s/%s (request %d of the batch); the parked check started before the mutation; only checks started after the mutation returned are constrained (single=%v batch=%v)", k[0], k[1], ki+1, afterSingle, afterBatch)})
+			break
+		}
 	}
 }
 
